@@ -490,6 +490,74 @@ fn server_hostile() {
         Ok(()) => { println!("{{\"found\": false, \"evaluations\": {}, \"searched\": \"{} hostile byte streams, each on its own connection, interleaved with a well-behaved client whose replies were checked after every one; the key `evil` must never appear\"}}", hostile.len(), hostile.len()); }
     }
 }
+/// C16, clauses 2 and 3 (bounded): the shutdown signal fires while a client is in the middle of a pipelined stream; what the client
+/// received must be complete replies (a prefix of the model's replies) followed by end-of-stream, and every SET whose +OK arrived
+/// must be in the store afterwards.
+fn server_shutdown(seed: u64) {
+    use bitcask::storage::bitcask::{Config as SConf, SyncStrategy};
+    use bitcask::storage::KeyValueStorage;
+    use tokio::io::{AsyncReadExt, AsyncWriteExt};
+    fn bulk(out: &mut Vec<u8>, b: &[u8]) { out.extend(format!("${}\r\n", b.len()).as_bytes()); out.extend(b); out.extend(b"\r\n"); }
+    fn req(parts: &[&[u8]]) -> Vec<u8> { let mut o = format!("*{}\r\n", parts.len()).into_bytes(); for p in parts { bulk(&mut o, p); } o }
+    let rt = tokio::runtime::Builder::new_multi_thread().worker_threads(2).enable_all().build().unwrap();
+    let mut x = seed.wrapping_mul(6364136223846793005).wrapping_add(1442695040888963407);
+    let mut next = move |n: u64| { x = x.wrapping_mul(6364136223846793005).wrapping_add(1442695040888963407); (x >> 33) % n };
+    let mut rounds = 0;
+    for round in 0..8u64 {
+        rounds += 1;
+        let dir = tempfile::tempdir().unwrap();
+        let mut c = SConf::default();
+        c.path(dir.path()).concurrency(2).max_file_size(1 << 20).sync(SyncStrategy::None).merge_check_interval_ms(1_000_000_000).merge_check_jitter(0.0);
+        let kv = c.open().unwrap();
+        let handle = kv.get_handle();
+        let port = { let l = std::net::TcpListener::bind("127.0.0.1:0").unwrap(); l.local_addr().unwrap().port() };
+        let (stop_tx, stop_rx) = tokio::sync::oneshot::channel::<()>();
+        let mut nc = bitcask::net::Config::default();
+        nc.host = "127.0.0.1".parse().unwrap(); nc.port = port;
+        let n = 200usize;
+        // request i: SET key<i> v<i>  (reply +OK\r\n, 5 bytes each)
+        let mut wire = Vec::new();
+        for i in 0..n { wire.extend(req(&[b"SET", format!("key{}", i).as_bytes(), format!("v{}", i).as_bytes()])); }
+        let delay_us = 50 + next(3000);
+        let chunk = [1usize, 13, 64, 4096][next(4) as usize];
+        let got: Result<Vec<u8>, String> = rt.block_on(async {
+            let server = nc.async_server(handle, async { let _ = stop_rx.await; }).await.map_err(|e| format!("server start: {}", e))?;
+            let srv = tokio::spawn(server.run());
+            let s = tokio::net::TcpStream::connect(("127.0.0.1", port)).await.map_err(|e| format!("connect: {}", e))?;
+            let (mut rd, mut wr) = s.into_split();
+            let w2 = wire.clone();
+            let writer = tokio::spawn(async move { for c in w2.chunks(chunk) { if wr.write_all(c).await.is_err() { break; } let _ = wr.flush().await; tokio::task::yield_now().await; } wr });
+            let stopper = tokio::spawn(async move { tokio::time::sleep(std::time::Duration::from_micros(delay_us)).await; let _ = stop_tx.send(()); });
+            let mut got = Vec::new();
+            let mut buf = vec![0u8; 65536];
+            loop { match tokio::time::timeout(std::time::Duration::from_secs(10), rd.read(&mut buf)).await { Ok(Ok(0)) => break, Ok(Ok(k)) => got.extend(&buf[..k]), Ok(Err(_)) => break, Err(_) => return Err("the server did not close the connection within 10 s after the shutdown signal".to_string()) } }
+            let _ = stopper.await; let _ = writer.await;
+            let _ = tokio::time::timeout(std::time::Duration::from_secs(10), srv).await;
+            Ok(got)
+        });
+        let hist = format!("seed {} round {}: 200 pipelined SETs in chunks of {} bytes, shutdown signal after {} us", seed, round, chunk, delay_us);
+        match got {
+            Err(e) => { println!("{{\"found\": true, \"kind\": \"shutdown\", \"props\": \"C16\", \"history\": {}, \"observed\": {}, \"expected\": {}}}", js(&hist), js(&e), js("the connection ends")); std::process::exit(0); }
+            Ok(g) => {
+                if g.len() % 5 != 0 || g.chunks(5).any(|c| c != b"+OK\r\n") {
+                    println!("{{\"found\": true, \"kind\": \"shutdown\", \"props\": \"C16\", \"history\": {}, \"observed\": {}, \"expected\": {}}}", js(&hist), js(&format!("the client received {} bytes: ...{:?}", g.len(), String::from_utf8_lossy(&g[g.len().saturating_sub(12)..]))), js("only complete +OK replies, then end of stream"));
+                    std::process::exit(0);
+                }
+                let acked = g.len() / 5;
+                drop(kv);
+                std::thread::sleep(std::time::Duration::from_millis(30));
+                let mut c2 = SConf::default();
+                c2.path(dir.path()).concurrency(2).max_file_size(1 << 20).sync(SyncStrategy::None).merge_check_interval_ms(1_000_000_000).merge_check_jitter(0.0);
+                let kv2 = c2.open().unwrap(); let h2 = kv2.get_handle();
+                for i in 0..acked { let v = h2.get(bytes::Bytes::from(format!("key{}", i))).ok().flatten();
+                    if v.as_deref() != Some(format!("v{}", i).as_bytes()) {
+                        println!("{{\"found\": true, \"kind\": \"shutdown\", \"props\": \"C16\", \"history\": {}, \"observed\": {}, \"expected\": {}}}", js(&hist), js(&format!("{} replies arrived but key{} reads {:?} after the shutdown", acked, i, v)), js("every acknowledged SET is in the store"));
+                        std::process::exit(0); } }
+            }
+        }
+    }
+    println!("{{\"found\": false, \"evaluations\": {}, \"searched\": \"{} connections with 200 pipelined SETs each, shutdown signal at a pseudo-random moment; received bytes must be whole replies, acknowledged SETs must be stored\"}}", rounds, rounds);
+}
 // ---------------------------------------------------------------------------------------------------
 // storage scenarios: every one runs the real store in a fresh temp dir and compares with a map model
 mod store {
@@ -894,6 +962,7 @@ fn main() {
         }
         Some("conn-search") => conn_search(),
         Some("server-hostile") => server_hostile(),
+        Some("server-shutdown") => server_shutdown(a.get(2).map(|s| s.parse().unwrap()).unwrap_or(0)),
         Some("server-search") => server_search(a.get(2).map(|s| s.parse().unwrap()).unwrap_or(0)),
         Some("decimal-search") => decimal_search(a.get(2).map(|s| s.parse().unwrap()).unwrap_or(200000)),
         Some("frame-one") => frame_one(&a[2], a.get(3).map(|s| s.parse().unwrap()).unwrap_or(0)),
